@@ -1,17 +1,762 @@
 package main
 
 import (
+	"bytes"
+	"encoding/json"
 	"fmt"
 	"os"
+	"os/exec"
+	"path/filepath"
+	"runtime"
+	"sort"
+	"strings"
+	"sync"
+	"syscall"
 	"time"
+
+	"falcosim/sim/tape"
+	"falcosim/sim/vclgen"
 )
 
+// ---------------------------------------------------------------------------
+// C16 — `falco fmt -w` never damages the file it rewrites.
+//
+// System: the real falco binary built from the working tree, real files. The
+// simulated part is the kernel's answer to each file-related system call:
+// bin/faultrun (a ptrace supervisor) numbers the calls that touch the case
+// directory in one global order and injects one fault at a chosen index.
+// For every input the syscall × fault product is enumerated completely.
+// ---------------------------------------------------------------------------
+
+type fsInput struct {
+	Class string            `json:"class"`
+	Name  string            `json:"name"`
+	Files map[string]string `json:"files"` // relative path → content
+	Links map[string]string `json:"links"` // relative link → relative target
+	Args  []string          `json:"args"`  // file arguments, relative to the case dir
+	Mode  map[string]uint32 `json:"mode"`  // optional file modes
+}
+
+type fsFault struct {
+	Kind  string `json:"kind"`  // inject | rlimit | perm | none
+	Index int    `json:"index"` // inject
+	Call  string `json:"call"`  // golden syscall name at Index
+	Fault string `json:"fault"` // errno:X | kill | short:N
+	Limit int64  `json:"limit"` // rlimit
+	Perm  string `json:"perm"`  // file-ro | dir-ro | both-ro
+}
+
+func (f fsFault) String() string {
+	switch f.Kind {
+	case "inject":
+		return fmt.Sprintf("%s#%d:%s", f.Call, f.Index, f.Fault)
+	case "rlimit":
+		return fmt.Sprintf("RLIMIT_FSIZE=%d", f.Limit)
+	case "perm":
+		return "perm:" + f.Perm
+	}
+	return "none"
+}
+
+type frEvent struct {
+	Index    int      `json:"index"`
+	Tid      int      `json:"tid"`
+	Name     string   `json:"name"`
+	Paths    []string `json:"paths"`
+	Ret      int64    `json:"ret"`
+	Injected string   `json:"injected"`
+}
+type frLog struct {
+	Events     []frEvent `json:"events"`
+	ExitCode   int       `json:"exit_code"`
+	Signaled   bool      `json:"signaled"`
+	InjectedAt int       `json:"injected_at"`
+	Error      string    `json:"error"`
+}
+
+var faultsFor = map[string][]string{
+	"openat":          {"errno:EACCES", "errno:ENOSPC", "errno:EROFS", "errno:EMFILE", "errno:ENOENT", "errno:EINTR"},
+	"open":            {"errno:EACCES", "errno:ENOSPC"},
+	"creat":           {"errno:EACCES", "errno:ENOSPC"},
+	"read":            {"errno:EIO"},
+	"pread64":         {"errno:EIO"},
+	"write":           {"errno:ENOSPC", "errno:EIO", "errno:EDQUOT", "errno:EFBIG"},
+	"pwrite64":        {"errno:ENOSPC", "errno:EIO"},
+	"writev":          {"errno:ENOSPC"},
+	"fsync":           {"errno:EIO", "errno:ENOSPC"},
+	"fdatasync":       {"errno:EIO"},
+	"close":           {"errno:EIO"},
+	"rename":          {"errno:EXDEV", "errno:EACCES", "errno:ENOSPC"},
+	"renameat":        {"errno:EXDEV", "errno:EACCES", "errno:ENOSPC"},
+	"renameat2":       {"errno:EXDEV", "errno:EACCES", "errno:ENOSPC"},
+	"unlink":          {"errno:EACCES"},
+	"unlinkat":        {"errno:EACCES"},
+	"fchmod":          {"errno:EPERM"},
+	"fchmodat":        {"errno:EPERM"},
+	"fchmodat2":       {"errno:EPERM"},
+	"chmod":           {"errno:EPERM"},
+	"ftruncate":       {"errno:EIO"},
+	"truncate":        {"errno:EIO"},
+	"newfstatat":      {"errno:EACCES"},
+	"fstat":           {"errno:EIO"},
+	"statx":           {"errno:EACCES"},
+	"lstat":           {"errno:EACCES"},
+	"stat":            {"errno:EACCES"},
+	"readlinkat":      {"errno:EACCES"},
+	"readlink":        {"errno:EACCES"},
+	"fallocate":       {"errno:ENOSPC"},
+	"copy_file_range": {"errno:ENOSPC", "errno:EXDEV"},
+	"sendfile":        {"errno:EIO"},
+	"link":            {"errno:EEXIST"},
+	"linkat":          {"errno:EEXIST"},
+}
+
+// calls that never change or decide anything about file content
+var skipCalls = map[string]bool{"fcntl": true, "lseek": true, "getdents64": true, "faccessat": true, "faccessat2": true}
+
+type fsEngine struct {
+	falco, faultrun string
+	root            string // scratch/cases
+	mu              sync.Mutex
+	runs            int
+	distinct        map[string]struct{}
+	faults          map[string]int
+	probes          map[string]int
+	found           map[string]*ReplayFile
+	foundCount      map[string]int
+	drift           int
+	samples         []any
+	nextDir         int
+	infra           string
+}
+
+func (e *fsEngine) newCaseDir() string {
+	e.mu.Lock()
+	e.nextDir++
+	n := e.nextDir
+	e.mu.Unlock()
+	d := filepath.Join(e.root, fmt.Sprintf("c%06d", n))
+	os.MkdirAll(d, 0o755)
+	os.Chmod(d, 0o755)
+	return d
+}
+
+func materialise(dir string, in *fsInput) error {
+	for name, content := range in.Files {
+		p := filepath.Join(dir, name)
+		os.MkdirAll(filepath.Dir(p), 0o755)
+		mode := os.FileMode(0o644)
+		if m, ok := in.Mode[name]; ok {
+			mode = os.FileMode(m)
+		}
+		if err := os.WriteFile(p, []byte(content), mode); err != nil {
+			return err
+		}
+		os.Chmod(p, mode)
+	}
+	for link, target := range in.Links {
+		if err := os.Symlink(target, filepath.Join(dir, link)); err != nil {
+			return err
+		}
+	}
+	return nil
+}
+
+func runCmd(dir string, timeout time.Duration, name string, args ...string) (stdout, stderr []byte, exit int, killed bool, err error) {
+	cmd := exec.Command(name, args...)
+	cmd.Dir = dir
+	cmd.Env = append(os.Environ(), "NO_COLOR=1", "HOME="+dir, "CI=")
+	var so, se bytes.Buffer
+	cmd.Stdout, cmd.Stderr = &so, &se
+	cmd.SysProcAttr = &syscall.SysProcAttr{Setpgid: true}
+	if err = cmd.Start(); err != nil {
+		return
+	}
+	done := make(chan error, 1)
+	go func() { done <- cmd.Wait() }()
+	select {
+	case werr := <-done:
+		if werr != nil {
+			if ee, ok := werr.(*exec.ExitError); ok {
+				exit = ee.ExitCode()
+				if ws, ok := ee.Sys().(syscall.WaitStatus); ok && ws.Signaled() {
+					killed = true
+					exit = 128 + int(ws.Signal())
+				}
+			} else {
+				err = werr
+			}
+		}
+	case <-time.After(timeout):
+		syscall.Kill(-cmd.Process.Pid, syscall.SIGKILL)
+		<-done
+		err = fmt.Errorf("timeout after %v", timeout)
+	}
+	return so.Bytes(), se.Bytes(), exit, killed, err
+}
+
+// expectedFor: what `falco fmt FILE` prints for each file (nil when it fails).
+func (e *fsEngine) expectedFor(in *fsInput) (map[string][]byte, error) {
+	exp := map[string][]byte{}
+	dir := e.newCaseDir()
+	defer os.RemoveAll(dir)
+	if err := materialise(dir, in); err != nil {
+		return nil, err
+	}
+	for name := range in.Files {
+		so, _, exit, killed, err := runCmd(dir, 60*time.Second, e.falco, "fmt", name)
+		if err != nil {
+			return nil, fmt.Errorf("falco fmt %s: %v", name, err)
+		}
+		if exit == 0 && !killed {
+			exp[name] = so
+		} else {
+			exp[name] = nil
+		}
+	}
+	return exp, nil
+}
+
+type fsOutcome struct {
+	exit      int
+	killedBy  string // "" | "injected-kill" | "signal"
+	log       *frLog
+	stderr    string
+	violation string // "" or description
+	vfile     string
+	stray     int
+}
+
+// execFault runs `falco fmt -w args…` on a pristine copy under one fault and
+// evaluates the oracle.
+func (e *fsEngine) execFault(in *fsInput, exp map[string][]byte, f fsFault) (*fsOutcome, error) {
+	dir := e.newCaseDir()
+	defer func() {
+		// restore permissions so that the directory can be removed
+		filepath.Walk(dir, func(p string, info os.FileInfo, err error) error {
+			if err == nil {
+				os.Chmod(p, 0o755)
+			}
+			return nil
+		})
+		os.RemoveAll(dir)
+	}()
+	if err := materialise(dir, in); err != nil {
+		return nil, err
+	}
+	out := &fsOutcome{}
+	args := append([]string{"fmt", "-w"}, in.Args...)
+	var se []byte
+	var err error
+	switch f.Kind {
+	case "none", "inject":
+		logPath := filepath.Join(e.root, fmt.Sprintf("log-%s.json", filepath.Base(dir)))
+		defer os.Remove(logPath)
+		fa := []string{"-root", dir, "-log", logPath}
+		if f.Kind == "inject" {
+			fa = append(fa, "-index", fmt.Sprint(f.Index), "-fault", f.Fault)
+		}
+		fa = append(fa, "--", e.falco)
+		fa = append(fa, args...)
+		var exit int
+		_, se, exit, _, err = runCmd(dir, 120*time.Second, e.faultrun, fa...)
+		if err != nil {
+			return nil, err
+		}
+		if exit != 0 {
+			return nil, fmt.Errorf("faultrun failed (%d): %s", exit, se)
+		}
+		b, rerr := os.ReadFile(logPath)
+		if rerr != nil {
+			return nil, rerr
+		}
+		var lg frLog
+		if jerr := json.Unmarshal(b, &lg); jerr != nil {
+			return nil, jerr
+		}
+		out.log = &lg
+		out.exit = lg.ExitCode
+		if lg.Signaled {
+			out.killedBy = "signal"
+			if f.Fault == "kill" && lg.InjectedAt == f.Index {
+				out.killedBy = "injected-kill"
+			}
+		}
+	case "rlimit":
+		pa := append([]string{fmt.Sprintf("--fsize=%d", f.Limit), e.falco}, args...)
+		var killed bool
+		_, se, out.exit, killed, err = runCmd(dir, 120*time.Second, "prlimit", pa...)
+		if err != nil {
+			return nil, err
+		}
+		if killed {
+			out.killedBy = "signal"
+		}
+	case "perm":
+		for name := range in.Files {
+			p := filepath.Join(dir, name)
+			if f.Perm == "file-ro" || f.Perm == "both-ro" {
+				os.Chmod(p, 0o444)
+			}
+		}
+		if f.Perm == "dir-ro" || f.Perm == "both-ro" {
+			filepath.Walk(dir, func(p string, info os.FileInfo, err error) error {
+				if err == nil && info.IsDir() {
+					os.Chmod(p, 0o555)
+				}
+				return nil
+			})
+		}
+		pa := append([]string{"--reuid=65534", "--regid=65534", "--clear-groups", e.falco}, args...)
+		var killed bool
+		_, se, out.exit, killed, err = runCmd(dir, 120*time.Second, "setpriv", pa...)
+		if err != nil {
+			return nil, err
+		}
+		if killed {
+			out.killedBy = "signal"
+		}
+	}
+	out.stderr = string(se)
+	// ---- the oracle: exactly the statement ---------------------------------
+	single := len(in.Args) == 1
+	names := make([]string, 0, len(in.Files))
+	for n := range in.Files {
+		names = append(names, n)
+	}
+	sort.Strings(names)
+	for _, name := range names {
+		orig := []byte(in.Files[name])
+		got, rerr := os.ReadFile(filepath.Join(dir, name))
+		if rerr != nil {
+			if f.Kind == "perm" {
+				// read it back as root
+				got, rerr = os.ReadFile(filepath.Join(dir, name))
+			}
+			if rerr != nil {
+				out.violation = fmt.Sprintf("file %s cannot be read back after the run: %v", name, rerr)
+				out.vfile = name
+				break
+			}
+		}
+		isOrig := bytes.Equal(got, orig)
+		isExp := exp[name] != nil && bytes.Equal(got, exp[name])
+		if !isOrig && !isExp {
+			out.violation = fmt.Sprintf("after the run %s holds %d bytes that are neither its original %d bytes nor the %s text of `falco fmt` (exit=%d %s)", name, len(got), len(orig), expDesc(exp[name]), out.exit, out.killedBy)
+			out.vfile = name
+			break
+		}
+		failed := out.exit != 0 && out.killedBy != "injected-kill"
+		if single && failed && !isOrig {
+			out.violation = fmt.Sprintf("the command failed (exit=%d %s) but %s was modified (it now holds the formatted text)", out.exit, out.killedBy, name)
+			out.vfile = name
+			break
+		}
+	}
+	// stray temporary files are noted, not violations
+	filepath.Walk(dir, func(p string, info os.FileInfo, err error) error {
+		if err != nil || info.IsDir() {
+			return nil
+		}
+		rel, _ := filepath.Rel(dir, p)
+		if _, ok := in.Files[rel]; ok {
+			return nil
+		}
+		if _, ok := in.Links[rel]; ok {
+			return nil
+		}
+		out.stray++
+		return nil
+	})
+	return out, nil
+}
+
+func expDesc(b []byte) string {
+	if b == nil {
+		return "(none: fmt fails)"
+	}
+	return fmt.Sprintf("%d-byte", len(b))
+}
+
+func (e *fsEngine) record(in *fsInput, f fsFault, o *fsOutcome, seed uint64, tier string) {
+	e.mu.Lock()
+	defer e.mu.Unlock()
+	e.runs++
+	sig := in.Class + "|" + in.Name + "|" + f.String()
+	if f.Kind != "none" {
+		e.distinct[sig] = struct{}{}
+	}
+	switch f.Kind {
+	case "inject":
+		k := strings.SplitN(f.Fault, ":", 2)[0]
+		if k == "errno" {
+			k = f.Fault
+		}
+		e.faults[f.Call+":"+k]++
+	case "rlimit":
+		e.faults["rlimit_fsize"]++
+	case "perm":
+		e.faults["perm:"+f.Perm]++
+	}
+	if o.stray > 0 {
+		e.probes["stray_temp_file_left"]++
+	}
+	if o.exit != 0 {
+		e.probes["command_reported_failure"]++
+	} else {
+		e.probes["command_reported_success"]++
+	}
+	if o.killedBy == "injected-kill" {
+		e.probes["crashed_at_fault_point"]++
+	}
+	if o.violation != "" {
+		fk := f.Fault
+		if f.Kind == "inject" && strings.HasPrefix(fk, "short:") {
+			fk = "short"
+		}
+		var key string
+		switch f.Kind {
+		case "inject":
+			key = fmt.Sprintf("C16/damaged:%s:%s:%s", in.Class, f.Call, fk)
+		case "rlimit":
+			key = fmt.Sprintf("C16/damaged:%s:rlimit_fsize", in.Class)
+		case "perm":
+			key = fmt.Sprintf("C16/damaged:%s:perm:%s", in.Class, f.Perm)
+		default:
+			key = fmt.Sprintf("C16/damaged:%s:fault-free", in.Class)
+		}
+		e.foundCount[key]++
+		if _, ok := e.found[key]; !ok {
+			var events any
+			if o.log != nil {
+				events = o.log.Events
+			}
+			e.found[key] = &ReplayFile{Property: "C16", Engine: "fsfault", Tier: tier, Seed: seed,
+				Violation: Violation{Oracle: "C16/file-intact-or-formatted", Key: key, Detail: fmt.Sprintf("%s\ninput %s (%s), fault %s\nstderr: %s", o.violation, in.Name, in.Class, f.String(), tail(o.stderr, 600))},
+				Extra:     map[string]any{"input": in, "fault": f}, Rendering: map[string]any{"syscalls": events}}
+		}
+	}
+}
+
 func runFsfault(id, tier string, seed uint64, scratch string, start time.Time) int {
-	fmt.Fprintln(os.Stderr, "fsfault engine not built yet")
-	return 2
+	falco, err := buildFalco(scratch)
+	if err != nil {
+		fmt.Fprintln(os.Stderr, "falcosim:", err)
+		return 2
+	}
+	os.Chmod(scratch, 0o755)
+	e := &fsEngine{falco: falco, faultrun: filepath.Join(verifDir, "bin", "faultrun"), root: filepath.Join(scratch, "cases"),
+		distinct: map[string]struct{}{}, faults: map[string]int{}, probes: map[string]int{}, found: map[string]*ReplayFile{}, foundCount: map[string]int{}}
+	os.MkdirAll(e.root, 0o755)
+	os.Chmod(e.root, 0o755)
+	os.Chmod(falco, 0o755)
+	inputs := fsInputs(tier, seed)
+	fmt.Printf("falcosim: falco built from %s working tree; %d inputs\n", repoDir, len(inputs))
+
+	type job struct {
+		in  *fsInput
+		exp map[string][]byte
+		f   fsFault
+	}
+	jobs := make(chan job, 1024)
+	var wg sync.WaitGroup
+	workers := envInt("FALCOSIM_WORKERS", runtime.NumCPU())
+	for w := 0; w < workers; w++ {
+		wg.Add(1)
+		go func() {
+			defer wg.Done()
+			for j := range jobs {
+				var o *fsOutcome
+				var err error
+				for attempt := 0; attempt < 3; attempt++ {
+					o, err = e.execFault(j.in, j.exp, j.f)
+					if err != nil {
+						break
+					}
+					if j.f.Kind == "inject" {
+						ok := o.log.InjectedAt == j.f.Index
+						if ok {
+							for _, ev := range o.log.Events {
+								if ev.Index == j.f.Index && ev.Name != j.f.Call {
+									ok = false
+								}
+							}
+						}
+						if strings.HasPrefix(j.f.Fault, "short:") && o.log.InjectedAt == -1 {
+							ok = true // write was already shorter than N: nothing to cut
+							e.mu.Lock()
+							e.probes["short_not_applicable"]++
+							e.mu.Unlock()
+						}
+						if !ok {
+							e.mu.Lock()
+							e.drift++
+							e.mu.Unlock()
+							o = nil
+							continue
+						}
+					}
+					break
+				}
+				if err != nil {
+					e.mu.Lock()
+					e.infra = fmt.Sprintf("input %s fault %s: %v", j.in.Name, j.f, err)
+					e.mu.Unlock()
+					continue
+				}
+				if o == nil {
+					e.mu.Lock()
+					e.infra = fmt.Sprintf("input %s fault %s: the fault did not land on the intended call in 3 attempts", j.in.Name, j.f)
+					e.mu.Unlock()
+					continue
+				}
+				e.record(j.in, j.f, o, seed, tier)
+			}
+		}()
+	}
+
+	productSize := 0
+	for i := range inputs {
+		in := inputs[i]
+		exp, err := e.expectedFor(in)
+		if err != nil {
+			fmt.Fprintln(os.Stderr, "falcosim:", err)
+			return 2
+		}
+		// golden trace
+		g, err := e.execFault(in, exp, fsFault{Kind: "none"})
+		if err != nil {
+			fmt.Fprintln(os.Stderr, "falcosim: golden run failed:", err)
+			return 2
+		}
+		e.record(in, fsFault{Kind: "none"}, g, seed, tier)
+		var sampleFaults []string
+		maxWrite := int64(0)
+		for _, ev := range g.log.Events {
+			if skipCalls[ev.Name] {
+				continue
+			}
+			fl := append([]string{}, faultsFor[ev.Name]...)
+			fl = append(fl, "kill")
+			if ev.Name == "write" || ev.Name == "pwrite64" {
+				if ev.Ret > 1 {
+					fl = append(fl, "short:1", fmt.Sprintf("short:%d", ev.Ret/2), fmt.Sprintf("short:%d", ev.Ret-1))
+				}
+				if ev.Ret > maxWrite {
+					maxWrite = ev.Ret
+				}
+			}
+			for _, ft := range fl {
+				jobs <- job{in, exp, fsFault{Kind: "inject", Index: ev.Index, Call: ev.Name, Fault: ft}}
+				productSize++
+				if len(sampleFaults) < 6 {
+					sampleFaults = append(sampleFaults, fmt.Sprintf("%s#%d:%s", ev.Name, ev.Index, ft))
+				}
+			}
+		}
+		// file-size limits: every L <= 64 in thorough, a few in quick
+		var limits []int64
+		if tier == "thorough" {
+			for l := int64(0); l <= 64; l++ {
+				limits = append(limits, l)
+			}
+			tp := tape.New(seed, "C16-limits", uint64(i), nil)
+			for k := 0; k < 6 && maxWrite > 65; k++ {
+				limits = append(limits, 65+int64(tp.Draw(int(maxWrite))))
+			}
+		} else {
+			limits = []int64{0, 1, 10, 64}
+			if maxWrite > 130 {
+				limits = append(limits, maxWrite/2, maxWrite-1)
+			}
+		}
+		for _, l := range limits {
+			jobs <- job{in, exp, fsFault{Kind: "rlimit", Limit: l}}
+			productSize++
+		}
+		if len(in.Links) == 0 {
+			for _, p := range []string{"file-ro", "dir-ro", "both-ro"} {
+				jobs <- job{in, exp, fsFault{Kind: "perm", Perm: p}}
+				productSize++
+			}
+		}
+		if len(e.samples) < 3 {
+			var calls []string
+			for _, ev := range g.log.Events {
+				if !skipCalls[ev.Name] {
+					p := ""
+					if len(ev.Paths) > 0 {
+						p = filepath.Base(ev.Paths[len(ev.Paths)-1])
+					}
+					calls = append(calls, fmt.Sprintf("%d:%s(%s)=%d", ev.Index, ev.Name, p, ev.Ret))
+				}
+			}
+			e.samples = append(e.samples, map[string]any{"input": in.Name, "class": in.Class, "args": in.Args, "golden_exit": g.exit, "golden_file_syscalls": calls, "some_faults_injected": sampleFaults, "fsize_limits": limits})
+		}
+	}
+	close(jobs)
+	wg.Wait()
+	if e.infra != "" {
+		fmt.Fprintln(os.Stderr, "falcosim: fsfault machinery trouble:", e.infra)
+		return 2
+	}
+
+	kf := loadFindings()
+	knownHit := map[string]int{}
+	var reported []string
+	keys := make([]string, 0, len(e.found))
+	for k := range e.found {
+		keys = append(keys, k)
+	}
+	sort.Strings(keys)
+	for _, k := range keys {
+		if kf.known(id, k) != nil {
+			knownHit[k] += e.foundCount[k]
+			continue
+		}
+		rf := e.found[k]
+		rf.RepoHead, rf.RepoDirty = repoHead(), repoStatus() != ""
+		path := writeReplay(*rf)
+		reported = append(reported, fmt.Sprintf("VIOLATION property=%s replay=%s", id, path))
+		fmt.Printf("falcosim: %s x%d — %s\n", k, e.foundCount[k], firstLine(rf.Violation.Detail))
+	}
+	wall := time.Since(start).Seconds()
+	cov := map[string]any{
+		"evaluations":         e.runs,
+		"distinct_nontrivial": len(e.distinct),
+		"rule":                props[id].Rule,
+		"samples":             e.samples,
+		"exhaustive":          true,
+		"exhaustive_note":     fmt.Sprintf("for each of the %d inputs of this run, every file-related syscall of the golden trace × every errno of its set × crash-before × short-write points, plus the listed RLIMIT_FSIZE values and the permission matrix: %d fault cases, all executed", len(inputs), productSize),
+		"inputs":              len(inputs),
+		"runs_per_hour":       int(float64(e.runs) / wall * 3600),
+		"faults_fired":        e.faults,
+		"probes":              e.probes,
+		"retries_after_drift": e.drift,
+		"components":          components(id),
+		"known_findings_hit":  knownHit,
+		"violation_keys":      keys,
+		"repo_head":           repoHead(),
+		"repo_dirty":          repoStatus() != "",
+	}
+	writeEvidence(id, tier, seed, props[id].Level, cov, wall, len(reported))
+	for _, f := range kf.forProperty(id) {
+		if f.Status == "known" {
+			fmt.Printf("KNOWN-FINDING: property=%s key=%s %s (observed %d times in this run)\n", id, f.Key, f.What, knownHit[f.Key])
+		}
+	}
+	fmt.Printf("falcosim: C16 %s: %d inputs, %d runs (%d fault cases), %d distinct faults injected, %.1fs wall\n", tier, len(inputs), e.runs, productSize, len(e.distinct), wall)
+	if len(reported) > 0 {
+		for _, l := range reported {
+			fmt.Println(l)
+		}
+		return 1
+	}
+	return 0
 }
 
 func replayFsfault(rf ReplayFile, scratch, path string) int {
-	fmt.Fprintln(os.Stderr, "fsfault engine not built yet")
-	return 2
+	falco, err := buildFalco(scratch)
+	if err != nil {
+		fmt.Fprintln(os.Stderr, "falcosim:", err)
+		return 2
+	}
+	os.Chmod(scratch, 0o755)
+	e := &fsEngine{falco: falco, faultrun: filepath.Join(verifDir, "bin", "faultrun"), root: filepath.Join(scratch, "cases"),
+		distinct: map[string]struct{}{}, faults: map[string]int{}, probes: map[string]int{}, found: map[string]*ReplayFile{}, foundCount: map[string]int{}}
+	os.MkdirAll(e.root, 0o755)
+	os.Chmod(e.root, 0o755)
+	b, _ := json.Marshal(rf.Extra)
+	var ex struct {
+		Input fsInput `json:"input"`
+		Fault fsFault `json:"fault"`
+	}
+	if err := json.Unmarshal(b, &ex); err != nil {
+		fmt.Fprintln(os.Stderr, "bad replay file:", err)
+		return 2
+	}
+	exp, err := e.expectedFor(&ex.Input)
+	if err != nil {
+		fmt.Fprintln(os.Stderr, err)
+		return 2
+	}
+	o, err := e.execFault(&ex.Input, exp, ex.Fault)
+	if err != nil {
+		fmt.Fprintln(os.Stderr, err)
+		return 2
+	}
+	if o.violation != "" {
+		fmt.Printf("reproduced: %s\n%s\nfault %s, exit=%d %s\nstderr: %s\n", rf.Violation.Key, o.violation, ex.Fault, o.exit, o.killedBy, tail(o.stderr, 600))
+		if o.log != nil {
+			for _, ev := range o.log.Events {
+				fmt.Printf("   %d %s %v = %d %s\n", ev.Index, ev.Name, ev.Paths, ev.Ret, ev.Injected)
+			}
+		}
+		fmt.Printf("VIOLATION property=C16 replay=%s\n", path)
+		return 1
+	}
+	fmt.Println("not reproduced: the file is intact or holds the formatted text under this fault")
+	return 0
+}
+
+// ---- inputs ---------------------------------------------------------------
+
+func fsInputs(tier string, seed uint64) []*fsInput {
+	var ins []*fsInput
+	add := func(class, name string, files map[string]string, args []string) *fsInput {
+		in := &fsInput{Class: class, Name: name, Files: files, Args: args}
+		ins = append(ins, in)
+		return in
+	}
+	decl := "sub vcl_recv {\n#FASTLY RECV\n   set req.http.X = \"a\"   \"b\";\n  if(req.http.Y){ esi; }\n      return(lookup);\n}\n\nacl a1 { \"10.0.0.0\"/8; }\n"
+	add("decl", "hand/decl", map[string]string{"a.vcl": decl}, []string{"a.vcl"})
+	add("formatted", "hand/formatted", map[string]string{"a.vcl": "sub vcl_recv {\n  #FASTLY RECV\n  esi;\n}\n"}, []string{"a.vcl"})
+	add("snippet", "hand/snippet", map[string]string{"a.vcl": "set req.http.X = \"a\";\nif (req.http.Y) { esi; }\n"}, []string{"a.vcl"})
+	add("invalid", "hand/invalid", map[string]string{"a.vcl": "sub vcl_recv { set req.http.X = ; }\n"}, []string{"a.vcl"})
+	add("empty", "hand/empty", map[string]string{"a.vcl": ""}, []string{"a.vcl"})
+	add("nonl", "hand/no-trailing-newline", map[string]string{"a.vcl": strings.TrimRight(decl, "\n")}, []string{"a.vcl"})
+	add("fmtcrash", "hand/error-bare", map[string]string{"a.vcl": "sub vcl_recv {\n  error;\n}\n"}, []string{"a.vcl"})
+	var big strings.Builder
+	for i := 0; big.Len() < 1<<20; i++ {
+		fmt.Fprintf(&big, "sub s%d {\n set req.http.X%d =   \"v\" req.http.Y;\n  if (req.http.Z ~ \"^/a\") { esi; }\n}\n", i, i)
+	}
+	add("big", "hand/1MiB", map[string]string{"a.vcl": big.String()}, []string{"a.vcl"})
+	sl := add("symlink", "hand/symlink", map[string]string{"real/target.vcl": decl}, []string{"link.vcl"})
+	sl.Links = map[string]string{"link.vcl": "real/target.vcl"}
+	add("multi", "hand/three-files-middle-invalid", map[string]string{"a.vcl": decl, "b.vcl": "sub vcl_recv { set = ; }\n", "c.vcl": decl + "\nbackend F_x { .host = \"h\"; }\n"}, []string{"a.vcl", "b.vcl", "c.vcl"})
+
+	// repository examples (seeded order) and generated programs
+	var files []string
+	filepath.Walk(filepath.Join(repoDir, "examples"), func(p string, info os.FileInfo, err error) error {
+		if err == nil && !info.IsDir() && strings.HasSuffix(p, ".vcl") && info.Size() < 64<<10 {
+			files = append(files, p)
+		}
+		return nil
+	})
+	sort.Strings(files)
+	tp := tape.New(seed, "C16-inputs", 0, nil)
+	perm := tp.Perm(len(files))
+	nRepo, nGen := 3, 3
+	if tier == "thorough" {
+		nRepo, nGen = len(files), 150
+	}
+	for i := 0; i < nRepo && i < len(files); i++ {
+		b, err := os.ReadFile(files[perm[i]])
+		if err != nil {
+			continue
+		}
+		rel, _ := filepath.Rel(repoDir, files[perm[i]])
+		add("decl", "repo/"+rel, map[string]string{"a.vcl": string(b)}, []string{"a.vcl"})
+	}
+	for i := 0; i < nGen; i++ {
+		gt := tape.New(seed, "C16-gen", uint64(i), nil)
+		o := vclgen.Default()
+		o.Comments = gt.Bool(1, 2)
+		if gt.Bool(1, 4) {
+			add("snippet", fmt.Sprintf("gen/snippet-%d", i), map[string]string{"a.vcl": vclgen.Snippet(gt, o)}, []string{"a.vcl"})
+		} else {
+			add("decl", fmt.Sprintf("gen/program-%d", i), map[string]string{"a.vcl": vclgen.Program(gt, o)}, []string{"a.vcl"})
+		}
+	}
+	return ins
 }
